@@ -54,7 +54,7 @@ func c18Build(cs c18Case) c18File {
 	case "PNG":
 		s := pngSpecFor(uint32(10+rng.Intn(5000)), uint32(10+rng.Intn(5000)), 6, 8, 0, rng)
 		if icc != nil {
-			s.ICC = &imggen.PNGICC{Name: "prof", Profile: icc, Level: 1}
+			s.ICC = &imggen.PNGICC{Name: latin1(rng, []int{1, 4, 78, 79}[int(cs.Seed>>3)%4]), Profile: icc, Level: 1}
 		}
 		anc := []imggen.PNGChunk{}
 		for n := 0; n < bigAnc; n += 50000 {
@@ -82,6 +82,9 @@ func c18Build(cs c18Case) c18File {
 		f.tailLen = cs.Payload + 4 + 12
 	case "JPEG":
 		s := imggen.JPEGSpec{Progressive: cs.Variant == "progressive", Precision: 8, W: 10 + rng.Intn(9000), H: 10 + rng.Intn(9000), Comps: imggen.StdComps(3, 2, 2)}
+		if cs.Variant == "dnl" { // zero lines in the frame header: the height comes later in a DNL segment (T.81 B.2.5)
+			s.H = 0
+		}
 		var segs []imggen.JPEGSeg
 		if icc != nil {
 			n := (len(icc) + 65518) / 65519
@@ -190,11 +193,65 @@ func (f c18File) source(schedule string, seed uint64) *src.Source {
 	return s
 }
 
+// seekableSource is a counting source that also implements io.Seeker (as *os.File and
+// *bytes.Reader do); bytes pulled are counted wherever they are read from.
+type seekableSource struct {
+	all    []byte
+	tailN  int64
+	tailF  func(int64) byte
+	pos    int64
+	pulled int64
+}
+
+func (s *seekableSource) size() int64 { return int64(len(s.all)) + s.tailN }
+func (s *seekableSource) Read(p []byte) (int, error) {
+	if s.pos >= s.size() {
+		return 0, io.EOF
+	}
+	n := int64(len(p))
+	if n > s.size()-s.pos {
+		n = s.size() - s.pos
+	}
+	for i := int64(0); i < n; i++ {
+		o := s.pos + i
+		if o < int64(len(s.all)) {
+			p[i] = s.all[o]
+		} else {
+			p[i] = s.tailF(o)
+		}
+	}
+	s.pos += n
+	s.pulled += n
+	return int(n), nil
+}
+func (s *seekableSource) Seek(off int64, whence int) (int64, error) {
+	switch whence {
+	case io.SeekStart:
+		s.pos = off
+	case io.SeekCurrent:
+		s.pos += off
+	case io.SeekEnd:
+		s.pos = s.size() + off
+	}
+	if s.pos < 0 {
+		s.pos = 0
+	}
+	return s.pos, nil
+}
+
 func c18Check(cs c18Case) (kind, msg string, over int64) {
 	f := c18Build(cs)
-	s := f.source(cs.Schedule, cs.Seed)
-	res := loadWith(cs.Loader, s)
-	pulled := s.Pulled
+	var res loadResult
+	var pulled int64
+	if cs.Schedule == "seekable" {
+		ss := &seekableSource{all: f.head, tailN: f.tailLen, tailF: f.tailF}
+		res = loadWith(cs.Loader, ss)
+		pulled = ss.pulled
+	} else {
+		s := f.source(cs.Schedule, cs.Seed)
+		res = loadWith(cs.Loader, s)
+		pulled = s.Pulled
+	}
 	if res.Panic != nil {
 		return "panic", fmt.Sprintf("%+v: Load panicked: %v", cs, res.Panic), 0
 	}
@@ -230,7 +287,7 @@ func c18Cases(seed int64, thorough bool) []c18Case {
 	rng := core.NewRNG(seed, "C18")
 	payloads := []int64{0, 1, 4 << 10, 64 << 10, 1 << 20, 64 << 20}
 	iccSizes := []int{500, 100 << 10, 3 << 20}
-	scheds := []string{"all", "4096", "1", "random"}
+	scheds := []string{"all", "4096", "1", "random", "seekable"}
 	var out []c18Case
 	add := func(format, variant, placement string, icc int) {
 		for _, p := range payloads {
@@ -253,6 +310,8 @@ func c18Cases(seed int64, thorough bool) []c18Case {
 	for _, n := range iccSizes {
 		add("PNG", "plain", "after-ancillary", n)
 	}
+	add("JPEG", "dnl", "none", 0)
+	add("JPEG", "dnl", "after-header", 500)
 	for _, v := range []string{"baseline", "progressive"} {
 		add("JPEG", v, "none", 0)
 		add("JPEG", "ancillary", "none", 0)
